@@ -659,6 +659,61 @@ func c06Authz(r *Run) {
 		r.Check(okD, "R5", fmt.Sprintf("%s#disabled-rejected-%d", fnID(cd), nDis), P.Pos(instrPos(ci.Instr)), "a disabled type leads to failure", "a message type found disabled does not lead to a failure exit")
 	})
 	r.Floor("R5", "isDisabledMsg checks", nDis, 2)
+	// every ordinary (non-wrapper) message of an inner list is looked up: once the message's type URL is computed
+	// (the default case), the next message or a success exit is reachable only through the isDisabledMsg lookup —
+	// except over the edge on which isAuthzInnerMsg is false (top-level messages may be of a disabled type)
+	{
+		isURL := func(in ssa.Instruction) bool {
+			c, ok := in.(*ssa.Call)
+			return ok && callInfo(c).Name == "MsgTypeURL" && innermostLoop(in.Block()) != nil
+		}
+		isLookup := isCallMatching(func(ci CallInfo) bool { return ci.Name == "isDisabledMsg" })
+		notInner := []Edge{}
+		for _, b := range cd.Blocks {
+			if ifi, ok := lastIf(b); ok {
+				if p, ok := stripNot(ifi.Cond).(*ssa.Parameter); ok && p.Name() == "isAuthzInnerMsg" {
+					if ifi.Cond == ssa.Value(p) {
+						notInner = append(notInner, Edge{b, 1})
+					} else {
+						notInner = append(notInner, Edge{b, 0})
+					}
+				}
+			}
+		}
+		okEvery, nURL := true, 0
+		var wit []string
+		eachInstr(cd, func(in ssa.Instruction) {
+			if !isURL(in) {
+				return
+			}
+			// only the URL computed for the default case (its value reaches an isDisabledMsg call somewhere)
+			v := in.(*ssa.Call)
+			feeds := false
+			eachCall(cd, func(ci CallInfo) {
+				if ci.Name == "isDisabledMsg" {
+					for _, a := range ci.Instr.Common().Args {
+						if backSlice(a).Has(v) {
+							feeds = true
+						}
+					}
+				}
+			})
+			if !feeds {
+				return
+			}
+			nURL++
+			hd := innermostLoop(in.Block())
+			w := PathQuery{Fn: cd, Start: in, Block: isLookup, Target: func(x ssa.Instruction) bool {
+				return isExitKind(x, ExitSuccess) || (hd != nil && x.Block() == hd && x == hd.Instrs[0])
+			}, DelEdge: edgeSet(notInner)}.Search()
+			if w != nil {
+				okEvery = false
+				wit = P.witness(w)
+			}
+		})
+		r.Check(okEvery && nURL > 0, "R5", fnID(cd)+"#every-inner-message-looked-up", P.Pos(fnPos(cd)), "each inner message's type is looked up in the disabled list",
+			"a message nested in a MsgExec can be passed over without its type being looked up in the disabled list (a skip/continue between computing the type URL and the lookup — e.g. a per-transaction 'already checked' set that a top-level occurrence fills): a barred type executes through a nested grant", wit...)
+	}
 	// AnteHandle: scan before next
 	if ah, ok := P.FnOK("(app/ante/cosmos.AuthzLimiterDecorator).AnteHandle"); ok {
 		isScan := isCallMatching(func(ci CallInfo) bool {
